@@ -27,6 +27,7 @@ import (
 	"github.com/olric-data/olric/internal/protocol"
 	"github.com/olric-data/olric/internal/resp"
 	"github.com/olric-data/olric/internal/stats"
+	"github.com/olric-data/olric/internal/verifhook"
 	"github.com/olric-data/olric/pkg/storage"
 	"github.com/redis/go-redis/v9"
 )
@@ -89,6 +90,7 @@ func (dm *DMap) putEntryOnFragment(e *env, nt storage.Entry) error {
 
 	// total number of entries stored during the life of this instance.
 	EntriesTotal.Increase(1)
+	verifhook.At("entry.stored", dm.name, nt.Key())
 
 	return nil
 }
@@ -199,6 +201,7 @@ func (dm *DMap) syncPutOnCluster(e *env, nt storage.Entry) error {
 			continue
 		}
 		successful++
+		verifhook.At("put.replica", dm.name, e.key)
 	}
 	if successful >= dm.s.config.WriteQuorum {
 		return nil
@@ -297,10 +300,12 @@ func (dm *DMap) putOnCluster(e *env) error {
 	e.fragment = f
 	f.Lock()
 	defer f.Unlock()
+	verifhook.At("put.locked", dm.name, e.key)
 
 	if err = dm.checkPutConditions(e); err != nil {
 		return err
 	}
+	verifhook.At("put.checked", dm.name, e.key)
 
 	if dm.config != nil {
 		if dm.config.ttlDuration.Seconds() != 0 && e.timeout.Seconds() == 0 {
